@@ -249,3 +249,15 @@ Theorem grammar_linear : forall fuel txt t errs st,
   parse_with fuel grammar_prog grammar_entry txt = ParseOk t errs st ->
   W st <= grammar_K * (List.length (raw_lex txt) + 1).
 Proof. exact (parse_linear _ _ _ _ grammar_chk_all grammar_cchk). Qed.
+
+(** * Capstone: everything C01 + C02 say about one parse *)
+Theorem grammar_parse_spec : forall txt, exists fuel t errs st,
+  parse_with fuel grammar_prog grammar_entry txt = ParseOk t errs st /\
+  lossless txt t /\
+  Forall (error_wf txt) errs /\
+  W st <= grammar_K * (List.length (raw_lex txt) + 1).
+Proof.
+  intros txt. destruct (grammar_total txt) as (fuel & t & errs & st & H).
+  exists fuel, t, errs, st. split; [exact H|]. split; [eapply grammar_lossless; exact H|].
+  split; [eapply grammar_errors_wf; exact H|eapply grammar_linear; exact H].
+Qed.
